@@ -27,8 +27,8 @@ type C14Case struct {
 }
 
 var c14Nums = []string{"0", "1", "2", "10"}
-var c14Pres = []string{"", "alpha", "alpha.1", "rc1", "rc.1", "0.3.7", "x-y-z", "beta-2"}
-var c14Metas = []string{"", "git", "001", "a.b-c"}
+var c14Pres = []string{"", "alpha", "alpha.1", "rc1", "rc.1", "0.3.7", "x-y-z", "beta-2", "RC1", "SNAPSHOT", "Beta-2", "-rc.1"}
+var c14Metas = []string{"", "git", "001", "a.b-c", "Build5", "build-7"}
 var c14NearMiss = []string{"1.2.3.4", "1..2", "abc", "1.2.x", "01.2.3", "1.2.3-01", "V1.2.3", " 1.2.3", "1.2.3 ", "1.2.3-rc_1", "1.2.3-", "1.2.3+", "v", "1.2.3-rc1+", "1.2.3-+b", "1.2.3-a..b", "1.2.3+a..b", "-1.2.3", "1.-2.3", "1.2.3-ü", "v1.2.3-01.1", "vv1.2.3", "1.2.3-rc.01", "1.2.3+001.01"}
 
 func c14Bases() []string {
@@ -94,8 +94,11 @@ func enumC14(env *engine.Env, yield func(any) bool) {
 	versions = append(versions, c14NearMiss...)
 	versions = append(versions, "")
 	for _, schema := range []string{"", "semver", "none"} {
-		for _, ep := range []string{"", "explicit-pre"} {
-			for _, em := range []string{"", "explicit.meta"} {
+		for _, ep := range []string{"", "explicit-pre", "-lead", "-", "RC.1"} {
+			for _, em := range []string{"", "explicit.meta", "Build-7"} {
+				if (ep == "-lead" || ep == "-" || ep == "RC.1") && em == "explicit.meta" {
+					continue
+				}
 				for _, v := range versions {
 					if !yield(C14Case{Part: "split", A: VerCfg{Version: v, Pre: ep, Meta: em, Schema: schema}}) {
 						return
@@ -116,6 +119,22 @@ func enumC14(env *engine.Env, yield func(any) bool) {
 		for _, f := range Formats {
 			if !yield(C14Case{Part: "verbatim", A: VerCfg{Version: v, Schema: "none"}, Why: f}) {
 				return
+			}
+		}
+	}
+	// explicit: configured prerelease / metadata reach the package exactly as written (a leading hyphen, upper case,
+	// dots and inner hyphens included), for a plain and for an unsplit version
+	for _, p := range c14Pres {
+		for _, m := range c14Metas {
+			if p == "" && m == "" {
+				continue
+			}
+			for _, v := range []string{"1.2.3", "v1.2"} {
+				for _, f := range Formats {
+					if !yield(C14Case{Part: "verbatim", A: VerCfg{Version: v, Pre: p, Meta: m, Epoch: "1", Release: "2"}, Why: f}) {
+						return
+					}
+				}
 			}
 		}
 	}
@@ -353,7 +372,7 @@ func checkC14(env *engine.Env, ci any) engine.Outcome {
 		f := c.Why
 		mc := verDoc(c.A)
 		data, err := buildYAML(metaDoc(mc, f, t).YAML(), f)
-		out.Key = fmt.Sprintf("verbatim:%s:%q:%q", f, c.A.Version, c.A.Schema)
+		out.Key = fmt.Sprintf("verbatim:%s:%q:%q:%q:%q", f, c.A.Version, c.A.Schema, c.A.Pre, c.A.Meta)
 		if err != nil {
 			out.Violations = append(out.Violations, engine.Violation{Sig: "version:verbatim-build-error:" + f, Detail: fmt.Sprintf("format=%s version=%q schema=%q: packaging failed: %v", f, c.A.Version, c.A.Schema, err)})
 			return out
